@@ -695,3 +695,56 @@ Proof.
   - cbn [xrun xstep]. rewrite updn_same, Hh. split; discriminate.
   - split; reflexivity.
 Qed.
+
+(* ------------------------------------------------------------------------------------------------ *)
+(* once-cells with a per-thread initialiser (Model.v: tstep / trun) *)
+
+Lemma step_init_ext : forall f g t o s, (forall x, f x = g x) -> step f t o s = step g t o s.
+Proof. intros f g t o s E. destruct o; simpl; try reflexivity. rewrite (E x). reflexivity. Qed.
+
+Lemma trun_independent_is_run : forall initT f, (forall t x, initT t x = f x) ->
+  forall tr s, trun initT tr s = run f tr s.
+Proof.
+  intros initT f E. induction tr as [|[t o] tr IH]; simpl; intros s; [reflexivity|].
+  unfold tstep. rewrite (step_init_ext (initT t) f t o s (E t)).
+  destruct (step f t o s) as [[s1 ob]|]; [|reflexivity]. rewrite IH. reflexivity.
+Qed.
+
+(* a once-cell whose initial value does not depend on the initialising thread is unobservable: for every schedule,
+   the operations of thread t run alone give exactly t's observations in the concurrent run *)
+Lemma once_thread_independent_unobservable : forall initT tr s s' obs t, thread_independent initT ->
+  Inv (initT t) s -> local_ops t tr ->
+  trun initT tr s = Some (s', obs) ->
+  exists s'', trun initT (proj t tr) s = Some (s'', proj t obs).
+Proof.
+  intros initT tr s s' obs t TI I L H.
+  assert (E : forall t' x, initT t' x = initT t x) by (intros; apply TI).
+  rewrite (trun_independent_is_run initT (initT t) E) in H.
+  destruct (concurrent_eq_sequential (initT t) tr s s' obs t I L H) as (s'' & R).
+  exists s''. rewrite (trun_independent_is_run initT (initT t) E). exact R.
+Qed.
+
+(* ... whereas a once-cell whose candidate depends on the initialiser IS observable: from any state in which the cell is
+   still empty, let t1 initialise first and then t2; t2 observes t1's value, alone it observes its own *)
+Lemma once_thread_dependent_observable : forall initT t1 t2 x s, once s x = None -> initT t1 x <> initT t2 x ->
+  exists s' s'',
+    trun initT [(t1, OOnceBegin x); (t1, OOnceEnd); (t2, OOnceBegin x); (t2, OOnceEnd)] s
+      = Some (s', [(t1, EvOnce x (initT t1 x)); (t2, EvOnce x (initT t1 x))]) /\
+    trun initT (proj t2 [(t1, OOnceBegin x); (t1, OOnceEnd); (t2, OOnceBegin x); (t2, OOnceEnd)]) s
+      = Some (s'', [(t2, EvOnce x (initT t2 x))]) /\
+    proj t2 [(t1, EvOnce x (initT t1 x)); (t2, EvOnce x (initT t1 x))] <> [(t2, EvOnce x (initT t2 x))].
+Proof.
+  intros initT t1 t2 x s On Hne.
+  assert (Ht : t1 <> t2) by (intros ->; apply Hne; reflexivity).
+  assert (Eb : Nat.eqb t1 t2 = false) by (apply Nat.eqb_neq; exact Ht).
+  eexists. eexists. split; [|split].
+  - cbn [trun tstep step]. rewrite On. cbn [set_pend pend once]. rewrite updn_same.
+    rewrite On. cbn [trun tstep step set_pend set_once pend once map app]. rewrite updn_same.
+    cbn [trun tstep step set_pend set_once pend once map app]. rewrite !updn_same.
+    cbn [map app]. reflexivity.
+  - unfold proj. cbn [filter]. unfold by_thread. cbn [fst]. rewrite Eb, Nat.eqb_refl.
+    cbn [trun tstep step]. rewrite On. cbn [set_pend pend once]. rewrite updn_same. rewrite On.
+    cbn [map app]. reflexivity.
+  - unfold proj. cbn [filter]. unfold by_thread. cbn [fst]. rewrite Eb, Nat.eqb_refl.
+    intros E. inversion E. apply Hne. assumption.
+Qed.
